@@ -28,7 +28,7 @@ ASSUMPTIONS = ["case flips touch raw letters only (hex digits of escapes are cov
                "not itself a two-letter ISO code", "under platform_aware=True suffix swaps are not applied to platform hosts (the platform rewrite is a different documented feature)",
                "language labels are only prepended when at least two labels remain after them"]
 FLOORS = ["class-compared", "T-case-any", "T-port-any", "T-lang-xx", "T-lang-xx-yy", "T-gl-hl", "T-suffix-swap", "T-subdomain", "T-tracking", "postcondition-checked", "overstrip-checked",
-          "opt-strip_suffix", "opt-platform_aware", "lang-with-www", "platform-host-gl-hl"]
+          "opt-strip_suffix", "opt-platform_aware", "lang-with-www", "platform-host-gl-hl", "platform-preserving-under-platform_aware", "redirect-carrier-case-flip", "escaped-uppercase"]
 PROBE_FLOORS = ["strip_lang_subdomains_from_hostname", "fingerprint_url", "lang_query_item_filter"]
 
 CTX = [None]
@@ -246,6 +246,20 @@ def run(ctx):
                 ctx.ev(4)
                 if len(set(outs)) != 1:
                     ctx.viol("C06:statement-example:%s" % oname, {"urls": ["http://facebook.com/X?a=1", "fr-FR.facebook.com:8080/X?hl=fr&a=1", "FACEBOOK.CO.UK/X?a=1"], "options": oname}, {"outs": outs})
+        if ctx.shard == 0:
+            # redirect carriers and platform URLs under case flips (the whole URL is case-insensitive for a fingerprint)
+            carriers = ["http://r.example.net/out?url=https%3A%2F%2Fwww.lemonde.fr%2Fa%2Fb", "http://r.example.net/l.php?u=http%3A%2F%2Fexample.org%2Fx&h=AT", "https://www.google.com/url?q=https%3A%2F%2Fexample.org%2Fp",
+                        "http://a.fr/login?next=/home", "https://www.facebook.com/story.php?story_fbid=123456789&id=987654321", "https://www.facebook.com/photo.php?fbid=10159&set=a.4242",
+                        "https://mashable-com.cdn.ampproject.org/c/s/mashable.com/2018/08/x.amp"]
+            for u in carriers:
+                for v in (u.upper(), u.swapcase(), u.title(), u.replace("%3a", "%3A").replace("url=", "URL=").replace("next=", "NEXT=").replace(".php", ".PHP")):
+                    if v != u:
+                        check_chain(ctx, fn, u, [("case-any", v)], OPTSETS)
+                        ctx.count("redirect-carrier-case-flip")
+                        ctx.count("T-case-any")
+            for a, b in (("a.com/?B=1&a=2", "a.com/?%42=1&a=2"), ("a.com/x?ref=FB", "a.com/x?ref=%46B"), ("a.com/Abc/Index.html", "a.com/%41bc/%49ndex.html"), ("a.com/x/b.AMP?Z=1", "a.com/x/b.%41MP?%5A=1")):
+                check_chain(ctx, fn, a, [("escape", b)], OPTSETS)
+                ctx.count("escaped-uppercase")
         hosts = N.HOSTS[:5] + ["www.example.com", "blog.example.co.uk", "shop.example.com.au", "a.example.pvt.k12.ma.us", "facebook.com", "www.youtube.com", "twitter.com"]
         grid = list(itertools.product(hosts, N.PATHS[:8], N.QUERIES[:6], N.FRAGS[:3]))
         step = 1 if ctx.tier == "thorough" else 4
@@ -294,9 +308,18 @@ def run(ctx):
                     if v is not None:
                         swaps.append(("suffix-swap", render(v)))
             for name, uv in sv:
-                # on platform hosts the platform rewrite is a documented replacement (C19): classes are judged without platform_aware
-                check_chain(ctx, fn, ub, [(name, uv)], OPTSETS[:2] if (platform or gi % 3) else OPTSETS)
+                # on platform hosts the platform rewrite is a documented replacement (C19): transformations that may change what the platform
+                # parser sees (path, markers, index pages, fragments) are judged without platform_aware; those that keep the URL on the platform
+                # (port, userinfo, scheme, wrappers, gl/hl and tracking items) are judged with it too
+                keeps_platform = name in ("port-any", "userinfo", "scheme", "wrap", "gl-hl", "tracking", "default-port")
+                if platform:
+                    opt = OPTSETS if keeps_platform else OPTSETS[:2]
+                else:
+                    opt = OPTSETS[:2] if gi % 3 else OPTSETS
+                check_chain(ctx, fn, ub, [(name, uv)], opt)
                 ctx.count("T-" + name)
+                if platform and keeps_platform:
+                    ctx.count("platform-preserving-under-platform_aware")
             for name, uv in swaps:
                 check_chain(ctx, fn, ub, [(name, uv)], [OPTSETS[1], OPTSETS[3]])
                 ctx.count("T-suffix-swap")
